@@ -225,9 +225,16 @@ def run(chk, ctx):
                             # count that matters is the one handed to the sequence builder.
                             crs = [c for c in it.calls if c.name == entry_fn]
                             slots = None
-                            if crs and len(crs[0].args) > 1 and isinstance(crs[0].args[1], tuple) and len(crs[0].args[1]) == 2 \
-                                    and is_lin(crs[0].args[1][1]):
-                                slots = crs[0].args[1][1]
+                            sv_ = None
+                            if crs:
+                                # second parameter of the builder, given by position or by keyword (tuple or list display)
+                                sv_ = crs[0].args[1] if len(crs[0].args) > 1 else None
+                                if sv_ is None and crs[0].kwargs:
+                                    ecs = [f_ for r_, q_, f_ in repo.all_functions() if q_ == entry_fn and r_.startswith("hrevolve_sequences/")]
+                                    if len(ecs) == 1 and len(ecs[0].args.args) > 1:
+                                        sv_ = crs[0].kwargs.get(ecs[0].args.args[1].arg)
+                            if isinstance(sv_, (tuple, list)) and len(sv_) == 2 and is_lin(sv_[1]):
+                                slots = sv_[1]
                             if slots is None:
                                 chk.decide("C11.COVER", base + "#disk-slots", None,
                                            "cannot identify the disk slot count passed to the sequence builder", rel=relc, node=init)
